@@ -33,6 +33,9 @@ def strategy_(draw, tier):
     fullrank_reg = draw(st.integers(0, 9)) < 3
     d = draw(pc.xy(tier, need_fullrank=fullrank_reg))
     X, Y = d["X"], d["Y"]
+    if draw(st.integers(0, 9)) < 3:
+        # only X has to be centred: targets with a non-zero mean are legal (the regressors carry no intercept)
+        Y = Y + draw(st.sampled_from([0.5, 3.0])) * pc.gen.normal(draw, (1, Y.shape[1]))
     n, m = X.shape
     reg = pc.draw_regressor(draw, fullrank_ok=fullrank_reg and pc.well_conditioned_tall(X))
     mix = draw(st.sampled_from([0.0, 0.05, 0.3, 0.5, 0.9, 1.0]))
